@@ -76,6 +76,11 @@ class PrintFinder(ast.NodeVisitor):
             chan = 'stderr' if kw is None else self.chan_of(kw)
         elif f in ('pprint.pprint', 'pprint'):
             chan = 'stdout'
+        elif f in ('input', 'builtins.input', 'raw_input') and (node.args or node.keywords):
+            # the prompt of input() is written to sys.stdout
+            chan = 'stdout'
+        elif f in ('getpass.getpass', 'getpass') and False:
+            chan = 'other:tty'
         elif isinstance(node.func, ast.Attribute) and node.func.attr in ('print_usage', 'print_help', 'print_version') \
                 and ast.unparse(node.func.value) in self.parsers:
             # argparse: usage / help text goes to sys.stdout unless a file is named
